@@ -251,3 +251,72 @@ def back_disagreements(cases: list[Case], prop: str) -> list[dict]:
                 detail = {"only_impl": sorted(si - sm)[:3], "only_model": sorted(sm - si)[:3]}
             dis.append({"case": c.job, "what": f"projection {prop} differs", "detail": detail})
     return dis
+
+
+# ---------------------------------------------------------------------------------------------------------
+# L1: synthetic API objects
+def l1_size(tier: str) -> int:
+    return 1000 if tier == "quick" else 8000
+
+
+def get_l1(seed: int, tier: str) -> list[dict]:
+    import l1
+    n = l1_size(tier)
+    key = f"{repo_hash()}_l1_{n}_{seed}"
+    CACHE.mkdir(parents=True, exist_ok=True)
+    d = CACHE / key
+    lock = open(CACHE / f".{key}.lock", "w")
+    fcntl.flock(lock, fcntl.LOCK_EX)
+    try:
+        f = d / "l1.pkl"
+        if f.exists():
+            try:
+                return pickle.loads(f.read_bytes())
+            except Exception:  # noqa: BLE001
+                pass
+        items = l1.run_l1(n, seed)
+        d.mkdir(parents=True, exist_ok=True)
+        f.write_bytes(pickle.dumps(items))
+        _evict()
+        return items
+    finally:
+        fcntl.flock(lock, fcntl.LOCK_UN)
+        lock.close()
+        try:
+            (CACHE / f".{key}.lock").unlink()
+        except OSError:
+            pass
+
+
+def l1_disagreements(items: list[dict], prop: str) -> list[dict]:
+    dis = []
+    for it in items:
+        a, m = it["impl"], it["model"]
+        tag = {"l1_api_seed": it["api_seed"], "nc": it["nc"]}
+        if m[0] == "err":
+            if not a.get("exc") or a["exc"]["type"] != m[1]:
+                dis.append({"case": tag, "what": f"model raises {m[1]}, implementation: {a.get('exc')}"})
+            continue
+        if m[0] != "ok":
+            dis.append({"case": tag, "what": f"model answer {m}"})
+            continue
+        if a.get("exc"):
+            dis.append({"case": tag, "what": f"implementation raises {a['exc']}, model completes"})
+            continue
+        if m[4] == "1":
+            continue
+        fi = {p: c for p, c in a["stubs"].items() if p.endswith(".sdsstub")}
+        fm = {p: c for p, c in m[5]}
+        pi, pm = projection(fi, prop), projection(fm, prop)
+        if pi != pm:
+            detail = None
+            if isinstance(pi, dict):
+                for k in sorted(set(pi) | set(pm)):
+                    if pi.get(k) != pm.get(k):
+                        detail = {"file": k, "impl": (pi.get(k) or "<absent>")[:500], "model": (pm.get(k) or "<absent>")[:500]}
+                        break
+            else:
+                si, sm = set(map(repr, pi)), set(map(repr, pm))
+                detail = {"only_impl": sorted(si - sm)[:3], "only_model": sorted(sm - si)[:3]}
+            dis.append({"case": tag, "what": f"projection {prop} differs on a generated API object", "detail": detail})
+    return dis
